@@ -98,8 +98,11 @@ pub fn addr(port: u16) -> SocketAddr { SocketAddr::new(IpAddr::V4(Ipv4Addr::LOCA
 /// Run a query under a script: "<result>|<trace>"
 pub fn run_scripted<T>(script: Script, show: impl Fn(&T) -> String, f: impl FnOnce() -> GDResult<T>) -> String {
     hook::install(script);
+    crate::alloc::reset();
     let r = catch_unwind(AssertUnwindSafe(f));
+    let (maxreq, peak) = crate::alloc::stats();
     let tr = hook::uninstall();
+    crate::cases::SIDE.with(|s| s.borrow_mut().push_str(&format!("alloc={maxreq},{peak};")));
     let res = match r {
         Ok(r) => show_res(&r, show),
         Err(_) => "PANIC".to_string(),
